@@ -10,6 +10,18 @@ CHECKS = {
          "Every generated datagram (classes: random, bit flips, field swaps, re-signings under every other key, wrong signing bytes, boundary slots, sentinels, unknown/banned ids, truncated/padded, positive controls) is delivered to the real server at each (now, offset) configuration; a full state snapshot under the server's own lock before and after plus the report log bytes are compared with what an independent reference predicate and slot model allow. Held = no unacceptable datagram changed any observable and every acceptable one had exactly the model's effect, on the executions run.",
          "Trusts go-ethereum's secp256k1 verification, the verif-tag snapshot accessor (cross-checked against the public sync/recent-reports/stats surfaces), and that gated background jobs do nothing. Sampled input space, not exhaustive.",
          "DESIGN.md §4 C01"),
+ "C03": ("exploration", "runtime monitor: gated real rotations + snapshot / reference-encoding oracles over generated report/ban/rotation/restart/query histories",
+         "Every rotation executed (background and 1-3 week start-up catch-up) is judged slot- and bit-exactly against a snapshot taken at the hook just before it and an independent report model; label, contiguity from week 0, signature and allDeviceStats.dat are checked against reference encodings. Every archived week is re-fetched after every later operation of every kind and must stay identical to its first response (also after insert_false_negatives requests). Live, future and misaligned weeks and insert_false_negatives responses are judged per request. Histories are sampled (40 quick / 1500 thorough, up to 200 devices and 8 weeks).",
+         "Trusts the hooks VerifSnapshot, migrate.beforeLock/migrate.done and gates, lib/refenc layouts, go-ethereum crypto, the test-mode clock. Impact values are only conserved, never predicted; the WattTime week-data path is dead in test builds.",
+         "DESIGN.md §4 C03"),
+ "C04": ("exploration", "runtime monitor: restart-after-every-prefix snapshot equivalence with model catch-up rotations",
+         "After every prefix of generated and scripted histories the real server is closed and started twice; both post-states must equal R(pre-state) on all persisted sections incl. full 80-byte slot records and the ordered archive; catch-up records are judged against the model record and the archive file against reference bytes; public endpoints are cross-checked against the snapshot. 0/1/2/3 catch-up rotations, a never-registered server, a banned device with reports on disk and every conflict kind are required to occur. Histories are sampled.",
+         "Restart = Close + NewGCAServer in one process (crash recovery is C05). Impact, server list, migration orders and recent lists are excluded as not persisted by design.",
+         "DESIGN.md §4 C04"),
+ "C05": ("fault_enumeration", "fault enumeration: strace syscall-entry SIGKILL at every file-syscall boundary of every operation, op-boundary and random-instant SIGKILL, kill aimed inside the stats-record write; restart oracle in a fresh process against reference load and operation models",
+         "For generated histories (first start, registration, authorizations incl. conflicts, reports incl. equivocation/over-capacity, rotations, restarts) the real server in a victim process is killed at every boundary between system calls on its five files (enumerated from a traced census; the achieved point is read back from the strace log), at every operation boundary, at PRNG instants of a concurrent workload, and inside the multi-page write of a statistics record. After each crash a fresh process restarts the server and requires: start succeeds; state = state decoded from the files = model(P) for acked <= P <= acked + in-flight; no partial registration/authorization/ban/rotation; registration possible iff absent and the registered key honoured; probe ops work; further restarts idempotent. Kills inside an 80/148-byte record write straddling a page boundary are not reachable.",
+         "Process-crash model only (kernel keeps completed syscalls; power loss out of scope). Trusts strace/ptrace SIGKILL-at-syscall-entry semantics, the verif snapshot accessor, go-ethereum verification.",
+         "DESIGN.md §4 C05"),
  "C09": ("exploration", "runtime monitor: wire capture at a UDP sink + history.dat byte monitor over random energy-file edit/restart histories (logical tick clock); model-based test of the history store with direct 64-bit-offset file reads",
          "For every generated scenario (sequence of energy-file versions produced by random edits, with client restarts) all datagrams captured per timeslot with power outside {0,1} must be byte-identical, verify under the device key and carry the reference value of the slot's first accepted reading; history.dat is read after every step (header constant, non-zero cells immutable and equal to a first reading). The history store is driven with (timeslot, value) pairs up to 2^32-1 incl. the 32-bit-offset wrap zone against a map model with header, touched-cell, alias-cell and whole-file checks. Held = no violation other than the two registered 32-bit-history findings on the executions run; only emitted datagrams are judged, sync retransmission is C08's.",
          "Trusts lib/efref (independent reference of the energy-file rule, its CSV splitter validated offline against encoding/csv on 4.7M inputs), go-ethereum signature verification, loopback UDP (a lost datagram is simply unjudged), client.VerifTicks as the logical clock.",
